@@ -111,6 +111,8 @@ impl ScanCase {
 
 fn striped_for(s: &[Nucleotide], pssm: &ScoringMatrix<Dna>) -> StripedSequence<Dna, U32> {
     let mut st: StripedSequence<Dna, U32> = Pipeline::<Dna, _>::generic().stripe(s);
+    // history: the same striped sequence was first configured for a LONGER motif (look-ahead rows only ever grow)
+    if s.len() % 3 == 1 { st.configure_wrap(pssm.len() + 1 + s.len() % 5); }
     st.configure(pssm);
     st
 }
